@@ -643,6 +643,33 @@ func c04Run(e *core.Env) {
 			e.State()
 		}
 	}
+	// very high precisions (beyond anything the pools can afford for every method): the iterated functions at
+	// Precision 330, 400 and 1000 on arguments below the smallest float64, next to 1 and far outside its range
+	{
+		hp := c04HighPrec()
+		for hi := range hp {
+			idx++
+			if !e.Mine(idx) {
+				continue
+			}
+			a := hp[hi]
+			e.Running(func() string { return a.String() })
+			fn := reflect.ValueOf(func() { runHP(a) })
+			_, pan, hung := dr.call(fn, nil)
+			e.TransOnly(1)
+			e.State()
+			switch {
+			case hung:
+				e.Outcome("hiprec/"+a.Op+"/hang", false)
+				e.Fail("hang", "hiprec", a, a.String()+fmt.Sprintf(": did not return within %d loop iterations", c04Fuel))
+			case pan != "":
+				e.Outcome("hiprec/"+a.Op+"/panic", false)
+				e.Fail("panic", "hiprec", a, a.String()+": panic: "+pan)
+			default:
+				e.Outcome("hiprec/"+a.Op+"/ok", false)
+			}
+		}
+	}
 	// package-level functions
 	funcs := map[string]interface{}{"New": apd.New, "NewBigInt": apd.NewBigInt, "NewFromString": apd.NewFromString, "NewWithBigInt": apd.NewWithBigInt, "NumDigits": apd.NumDigits, "MakeErrDecimal": apd.MakeErrDecimal}
 	var fnames []string
@@ -822,9 +849,68 @@ func c04Run(e *core.Env) {
 	e.R.Extra["max_loop_iterations_in_one_call"] = maxFuel
 }
 
+// c04HighPrec lists the high-precision calls.
+func c04HighPrec() []ArithCase {
+	var out []ArithCase
+	xs := []DecJ{{Coef: "1", Exp: -350}, {Coef: "1", Exp: -350, Neg: true}, {Coef: "123", Exp: -900}, {Coef: "5", Exp: -324}, {Coef: "1", Exp: -320}, {Coef: "2"}, {Coef: "5", Exp: -1},
+		{Coef: "1", Exp: 350}, {Coef: "1" + strings.Repeat("0", 398) + "1", Exp: -399}, {Coef: strings.Repeat("9", 400), Exp: -400}}
+	half := DecJ{Coef: "5", Exp: -1}
+	three := DecJ{Coef: "3"}
+	for _, pr := range []uint32{330, 400, 1000} {
+		cj := CtxJ{P: pr, Emin: -100000, Emax: 100000, Mode: "half_even"}
+		for _, x := range xs {
+			for _, op := range []string{"Exp", "Ln", "Log10", "Sqrt", "Cbrt"} {
+				out = append(out, ArithCase{Op: op, X: x, Ctx: cj})
+			}
+			h, t := half, three
+			out = append(out, ArithCase{Op: "Pow", X: x, Y: &h, Ctx: cj}, ArithCase{Op: "Quo", X: x, Y: &t, Ctx: cj})
+		}
+	}
+	return out
+}
+
+// runHP executes one high-precision call (panics and fuel exhaustion propagate to the driver).
+func runHP(a ArithCase) {
+	cc := a.Ctx.Ctx()
+	c := cc.C
+	var d apd.Decimal
+	x := a.X.Build()
+	switch a.Op {
+	case "Exp":
+		c.Exp(&d, x)
+	case "Ln":
+		c.Ln(&d, x)
+	case "Log10":
+		c.Log10(&d, x)
+	case "Sqrt":
+		c.Sqrt(&d, x)
+	case "Cbrt":
+		c.Cbrt(&d, x)
+	case "Pow":
+		c.Pow(&d, x, a.Y.Build())
+	case "Quo":
+		c.Quo(&d, x, a.Y.Build())
+	}
+}
+
 func c04Replay(kind string, raw json.RawMessage) string {
 	if err := c16LayoutOK(); err != nil {
 		return err.Error()
+	}
+	if kind == "hiprec" {
+		a, err := decodeArith(raw)
+		if err != nil {
+			return "bad replay file"
+		}
+		dr := &c04Driver{}
+		_, pan, hung := dr.call(reflect.ValueOf(func() { runHP(a) }), nil)
+		if hung {
+			return a.String() + fmt.Sprintf(": did not return within %d loop iterations", c04Fuel)
+		}
+		if pan != "" {
+			return a.String() + ": panic: " + pan
+		}
+		return ""
 	}
 	var c c04Case
 	if err := json.Unmarshal(raw, &c); err != nil {
@@ -906,7 +992,7 @@ func init() {
 	core.Register(&core.Prop{
 		ID:    "C04",
 		Title: "Operations are total: no panic and no hang on any well-formed input",
-		Rule:  "every exported function and method of the package (list taken from the AST of the tree under test; a missing driver is a harness error) is called by reflection with receivers and arguments generated per parameter type from finite pools of well-formed values (decimals incl. specials, signed zeros, package limits, heap-backed coefficients; contexts incl. precision 0 and three trap sets; all 256 format bytes; boundary integers; C14 strings and byte slices; scan sources); every call runs under a recover guard and a loop-fuel budget in the instrumented build; BigInt panics are accepted only when math/big panics on the same values; a call that reports success must leave well-formed Decimals; non-trivial = the call returned an error, panicked like math/big, or hit a special path",
+		Rule:  "every exported function and method of the package (list taken from the AST of the tree under test; a missing driver is a harness error) is called by reflection with receivers and arguments generated per parameter type from finite pools of well-formed values (decimals incl. specials, signed zeros, package limits, heap-backed coefficients; contexts incl. precision 0 and three trap sets; all 256 format bytes; boundary integers; C14 strings and byte slices; scan sources); every call runs under a recover guard and a loop-fuel budget in the instrumented build; BigInt panics are accepted only when math/big panics on the same values; a call that reports success must leave well-formed Decimals; non-trivial = the call returned an error, panicked like math/big, or hit a special path; plus Exp, Ln, Log10, Sqrt, Cbrt, Pow(x, 0.5), Quo(x, 3) at Precision 330, 400 and 1000 on ten arguments (below the smallest float64, next to 1, 400 digits, 1E+350)",
 		Bounds: func(tier string) string {
 			p := c04MakePools(tier)
 			return fmt.Sprintf("pools: %d decimals, %d contexts, %d big integers, %d strings, 13 exponents, 256 bytes, 4096 conditions; per method the receiver x argument product is enumerated completely when <= %d tuples, otherwise a fixed-stride sub-lattice of it (strides listed under notes); fmt verbs: all printable runes x 32 flag subsets x 4 widths; parsers: all strings of <= 4 tokens; loop fuel %d iterations per call", len(p.dec), len(p.ctx), len(p.bigs), len(p.str), map[bool]int{false: 40000, true: 400000}[tier == "thorough"], c04Fuel)
